@@ -99,4 +99,9 @@ def fragments(repo: str, max_frags: int = 10) -> Any:
     heading = st.tuples(titles, under).map(lambda t: '%s\n%s\n' % (t[0], t[1] * len(t[0])))
     sectioned = st.tuples(st.lists(st.tuples(heading, concat), min_size=1, max_size=3), st.booleans()).map(
         lambda t: ('intro\n\n' if t[1] else '') + '\n\n'.join(h + '\n' + body for h, body in t[0]))
-    return st.one_of(concat, concat, concat, mutated(), mutated(), arbitrary, hard, hard, sectioned)
+    # text that makes a parser fail with an exception of its own (not a markup error it reports): an ordinal beyond the integer
+    # conversion limit; preceded by markup the parser complains about and recovers from, and by ordinary fragments
+    complaints = st.sampled_from(['Text @notfield here.\n\n', 'Text *unclosed here.\n\n', '`unclosed\n\n', '@notafield\n\n', 'Bad\n~~\n\n', '.. unknown:: x\n\n', ''])
+    crasher = st.tuples(st.lists(complaints, max_size=2), st.lists(frag, max_size=2), st.sampled_from(['%s. item\n' % ('1' * 4400), ' %s. item\n' % ('9' * 5000)])).map(
+        lambda t: ''.join(t[0]) + ''.join(t[1]) + ('' if (''.join(t[0]) + ''.join(t[1])).endswith('\n') or not (t[0] or t[1]) else '\n\n') + t[2])
+    return st.one_of(concat, concat, concat, mutated(), mutated(), arbitrary, hard, hard, sectioned, crasher)
